@@ -330,10 +330,12 @@ def run_dimfiles(desc):
         for d, sp in zip(U["dims"], desc["specs"]):
             path = os.path.join(tmp, f"dim_{d['letter']}.{'csv' if fmt == 'csv' else 'xlsx'}")
             named_sheet = fmt == "excel" and desc["sheets"] == "named"
-            write_dim_file(path, d["name"], d["items"], fmt, sp["orient"], sp["header"], sheet=f"dim {d['letter']}" if named_sheet else None, extra_sheet_first=named_sheet and sp["decoy_first"])
+            # sheet names are free text as well: '0', '1', '2020' are names, not positions
+            sname = [f"dim {d['letter']}", "0", "1", "2020"][sp.get("sheetname", 0) % 4]
+            write_dim_file(path, d["name"], d["items"], fmt, sp["orient"], sp["header"], sheet=sname if named_sheet else None, extra_sheet_first=named_sheet and sp["decoy_first"])
             files[d["name"]] = path
             if named_sheet:
-                sheets[d["name"]] = f"dim {d['letter']}"
+                sheets[d["name"]] = sname
         defs = dim_defs(U)
         if fmt == "csv":
             reader = fd.CSVDimensionReader(dimension_files=files)
@@ -388,7 +390,7 @@ def dimfile_cases(draw):
             pos = draw(st.integers(0, len(d["items"]) - 1))
             if lab not in d["items"]:
                 d["items"][pos] = lab
-    specs = [{"orient": draw(st.sampled_from(["row", "col"])), "header": draw(st.booleans()), "decoy_first": draw(st.booleans())} for _ in U["dims"]]
+    specs = [{"orient": draw(st.sampled_from(["row", "col"])), "header": draw(st.booleans()), "decoy_first": draw(st.booleans()), "sheetname": draw(st.integers(0, 3))} for _ in U["dims"]]
     fmt = draw(st.sampled_from(["csv", "excel", "excel"]))
     return {"universe": U, "specs": specs, "fmt": fmt, "sheets": draw(st.sampled_from(["named", "first"])) if fmt == "excel" else "n/a"}
 
